@@ -29,6 +29,10 @@ func checkC15(c *Ctx) {
 	c.Decides("ERRFLOW/GF: Merge returns a non-nil error iff one tree is unrooted, and for every name of one index found in the other; PAIR: the adjacency edits of these functions are two-sided")
 	c.Decides("LASTLINE: the list-file readers shared by the commands (cmd/root.go, io/fileutils, io/utils) do not read lines with bufio ReadString/ReadBytes unless they handle io.EOF themselves: these return the last unterminated line together with io.EOF, which the `for err == nil` line loops never look at")
 	c.lastLineIn("add exactly the requested tips", "cmd/repopulate.go")
+	c.Decides("OPT-OWN (shared with C05): the graft/merge/repopulate/subtree commands, like every command, read only option storage they register (or one of the few cross-command reads confirmed on the reference tree): a pre-check written against another command's variable never sees what the user passed")
+	if ncm, _ := c.optOwn("OPT-OWN", "add exactly the requested tips"); ncm < 80 {
+		c.Undecided("OPT-OWN", "scan-count", 0, fmt.Sprintf("only %d command literals seen (more than 80 confirmed by hand)", ncm))
+	}
 	c.DoesNotDecide("path-length preservation as such, exact placement of grafted/inserted tips, independence under arbitrary later edits beyond 'no shared mutable storage at copy time'")
 	c.Decides("ERR-DEAD: in tree/tree.go, the graft/merge/repopulate/subtree commands and the command helpers of cmd/root.go (the group-file reader included), the error a call stores in a variable is read before that variable is assigned again on every path: a request that cannot be read is reported, not carried out as an empty one")
 	c.Decides("ERR-SWALLOW: in the same files, a branch entered because an error value is non-nil does not leave the function with a nil error (no `return nil`, no bare return with an unset named result)")
